@@ -612,8 +612,11 @@ def rule_e(ck, u):
             dj = L(sym.mem_read(p.mem, jk[0])) - L(jk[1])
             if not (dj.is_const() and dj.c == -1):
                 bad = 'digit cursor moves by %s (expected -1: least significant digit first)' % dj
-    ck.verdict(bad is None and seen, 'C20.e', 'parse_integer_:value', cast.where(u.fn('parse_integer_')),
-               'value = sum of digit * base^k from the last digit backwards' if bad is None and seen else (bad or 'accumulation loop not recognised'))
+    if bad is None and not seen:
+        ck.broken('C20.e', 'parse_integer_:value', cast.where(u.fn('parse_integer_')), 'accumulation loop not recognised (the value is computed some other way)')
+    else:
+        ck.verdict(bad is None, 'C20.e', 'parse_integer_:value', cast.where(u.fn('parse_integer_')),
+                   'value = sum of digit * base^k from the last digit backwards' if bad is None else bad)
     # parse_symbol: text window and position
     ps = eng.paths('parse_symbol')
     bad = None
@@ -927,13 +930,13 @@ def rule_g(ck, u):
                     continue
                 for ai, a in enumerate(e.args):
                     a0 = strip(a)
-                    if not (a0 == Sx or (a0[0] in ('+', '-') and strip(a0[1]) == Sx)):
+                    if not (a0 == Sx or (a0[0] in ('+', '-') and L(a0).t.get(Sx) == 1)):
                         continue
                     nsite += 1
                     off = L(a0) - L(Sx)
                     if e.name in NUL_SEEKING:
                         bad = ('%s at %s reads through %s until it meets a NUL; the input is only known to hold %s octets '
-                               '(a symbol at the end of a length-delimited input is read beyond its last octet)'
+                               '(a token at the end of a length-delimited input is read beyond its last octet)'
                                % (e.name, e.where(), fmt(a), ln))
                     elif e.name in LEN_BOUNDED:
                         pa, ca = LEN_BOUNDED[e.name]
@@ -974,17 +977,20 @@ def run(ck):
     ck.unit(UNIT)
     eng = sym.Engine(u, sizeof={}, inline=set())
     eng.record_loads = True
-    for fn in ('skip_ws', 'looking_at', 'sx_parse_token', 'parse_symbol', 'parse_integer_', 'digit2int', 'result_is_error', 'sx_parse', 'sx_parse_list', 'sx_destroy'):
+    for fn in ('skip_ws', 'looking_at', 'sx_parse_token', 'parse_symbol', 'parse_integer_', 'result_is_error', 'sx_parse', 'sx_parse_list', 'sx_destroy'):
         if u.fn(fn) is None:
             ck.broken('C20.a', fn, '', 'function missing (anchor vanished)')
             return
-    try:
-        rule_a(ck, u, eng)
-        rule_c(ck, u, eng)
-        rule_d(ck, u, eng)
-        rule_e(ck, u)
-    except (sym.Unsupported, sym.PathLimit) as e:
-        ck.broken('C20.a', 'engine', '', str(e))
+    for nm, rl in (('C20.a', lambda: rule_a(ck, u, eng)), ('C20.c', lambda: rule_c(ck, u, eng)), ('C20.d', lambda: rule_d(ck, u, eng)), ('C20.e', lambda: rule_e(ck, u))):
+        try:
+            if nm == 'C20.c' and u.fn('digit2int') is None:
+                # the integer value is no longer computed by the table-driven loop this rule understands; what the code does
+                # instead is judged by the other rules (notably C20.g for library calls on the input window)
+                ck.broken('C20.c', 'digit2int', '', 'function missing (anchor vanished): digit values are computed some other way')
+                continue
+            rl()
+        except (sym.Unsupported, sym.PathLimit, KeyError, IndexError, TypeError, AttributeError) as e:
+            ck.broken(nm, 'engine', UNIT, '%s: %s' % (type(e).__name__, e))
     try:
         rule_g(ck, u)
     except (sym.Unsupported, sym.PathLimit) as e:
